@@ -45,6 +45,8 @@ thread_local! {
   static QUIESCENT: Cell<Option<fn(&crate::Allocator)>> = const { Cell::new(None) };
   static SWEEP_FULL: Cell<bool> = const { Cell::new(false) };
   static QUIESCENT_PENDING: Cell<bool> = const { Cell::new(false) };
+  static QUIESCENT_EVERY: Cell<u64> = const { Cell::new(0) };
+  static THRESHOLD_WATCH: Cell<Option<fn(u64, usize, usize)>> = const { Cell::new(None) };
   static FORCE_CACHE_MISS: Cell<bool> = const { Cell::new(false) };
   static TICKS: Cell<u64> = const { Cell::new(0) };
   static TICK_BUDGET: Cell<u64> = const { Cell::new(u64::MAX) };
@@ -88,6 +90,8 @@ pub fn reset() {
   QUIESCENT.with(|v| v.set(None));
   SWEEP_FULL.with(|v| v.set(false));
   QUIESCENT_PENDING.with(|v| v.set(false));
+  QUIESCENT_EVERY.with(|v| v.set(0));
+  THRESHOLD_WATCH.with(|v| v.set(None));
   FORCE_CACHE_MISS.with(|v| v.set(false));
   TICKS.with(|v| v.set(0));
   TICK_BUDGET.with(|v| v.set(u64::MAX));
@@ -184,6 +188,31 @@ pub fn quiescent(allocator: &crate::Allocator) {
 #[inline]
 pub fn take_quiescent_pending() -> bool {
   QUIESCENT_PENDING.with(|v| v.replace(false))
+}
+
+/// Also report a quiescent point at the entry of every n-th allocation (0 = only after collections)
+pub fn set_quiescent_every(every: u64) {
+  QUIESCENT_EVERY.with(|v| v.set(every));
+}
+
+/// Is the allocation about to happen one of the sampled quiescent points
+#[inline]
+pub fn quiescent_sample_due() -> bool {
+  let every = QUIESCENT_EVERY.with(|v| v.get());
+  every > 0 && ALLOC_INDEX.with(|v| v.get()) % every == 0
+}
+
+/// Install a function that is shown the byte count and the collection threshold after every allocation
+pub fn set_threshold_watch(watch: Option<fn(u64, usize, usize)>) {
+  THRESHOLD_WATCH.with(|v| v.set(watch));
+}
+
+/// Called by the allocator after each managed allocation, before it decides to collect
+#[inline]
+pub fn threshold_watch(bytes_allocated: usize, next_gc: usize) {
+  if let Some(watch) = THRESHOLD_WATCH.with(|v| v.get()) {
+    watch(ALLOC_INDEX.with(|v| v.get()), bytes_allocated, next_gc)
+  }
 }
 
 /// Force every inline cache lookup to miss
